@@ -92,6 +92,28 @@ theorem dispatch_spec_partial {ops : List Op} {t : Table} (_h : compile ops = .o
     (req : Request) : TableRouted t req (t.dispatch req) :=
   tableDispatch_spec t hN req
 
+set_option maxRecDepth 100000 in
+/-- Non-vacuous: `okOps` (parameters, a catch-all, a nested prefix with its own fallback) is accepted
+    and satisfies the side condition; so does a table with domain guards. -/
+example : ∃ t, compile okOps = .ok t ∧ t.NoNestedSuffix := by
+  refine ⟨(match compile okOps with | .ok t => t | .error _ => .agnostic ⟨[], none⟩), by decide +kernel, ?_⟩
+  apply Table.noNestedSuffix_of_check
+  decide +kernel
+
+def domOps : List Op :=
+  [.nest none (some "a.com".toList) [.route 0 (.some ["GET"]) "/r".toList, .fallback 0],
+   .nest (some "/v1".toList) (some "{sub}.a.com".toList) [.route 1 (.some ["GET", "LOCK"]) "/r/{id}.json".toList]]
+
+set_option maxRecDepth 100000 in
+example : ∃ t, compile domOps = .ok t ∧ t.NoNestedSuffix ∧
+    t.dispatch ⟨"LOCK", "/v1/r/7.json".toList, some "w.a.com:8080".toList⟩ = .handler 1 ∧
+    t.dispatch ⟨"GET", "/nope".toList, some "a.com".toList⟩ = .fallback (some 0) [] ∧
+    t.dispatch ⟨"GET", "/r".toList, some "b.org".toList⟩ = .fallback none [] := by
+  refine ⟨(match compile domOps with | .ok t => t | .error _ => .agnostic ⟨[], none⟩), by decide +kernel, ?_,
+    by decide +kernel, by decide +kernel, by decide +kernel⟩
+  apply Table.noNestedSuffix_of_check
+  decide +kernel
+
 /-- The witness of the missing piece (matchit commits to the longest fitting suffix): `/{x}ab/c` and
     `/{x}b/d` are accepted, `GET /zab/d` matches the second route and gets the default fallback. -/
 def commitOps : List Op := [.route 0 (.some ["GET"]) "/{x}ab/c".toList, .route 1 (.some ["GET"]) "/{x}b/d".toList]
@@ -261,6 +283,18 @@ theorem allow_exact {comps : List Comp} {fbs : List Fb} {r : PathRouter}
   refine ⟨?_, PathRouter.new_allowed h hl hf⟩
   rw [leaf_dispatch_no_arm hno, hf]
 
+set_option maxRecDepth 100000 in
+/-- Non-vacuous: in `okOps`, `DELETE /a/b` has a matching path and no matching method: the default
+    fallback sees `GET` and `PURGE` and answers `405` with `Allow: GET,PURGE`; `DELETE /a/c` only
+    matches `/a/{x}` (registered for `GET`). -/
+example : ((compile okOps).toOption.map (fun t =>
+      (t.dispatch ⟨"DELETE", "/a/b".toList, none⟩, t.dispatch ⟨"DELETE", "/a/c".toList, none⟩))) =
+      some (.fallback none ["GET", "PURGE"], .fallback none ["GET"]) ∧
+    defaultFallback ["GET", "PURGE"] = (405, some "GET,PURGE") := by
+  constructor
+  · decide +kernel
+  · decide +kernel
+
 /-- The fallback runs exactly when no arm accepts the method. -/
 theorem fallback_iff_no_method {l : Leaf} {m : String} {f : Option Nat} {allowed : List String} :
     l.dispatch m = .fallback f allowed ↔
@@ -313,6 +347,16 @@ theorem prefix_fallback {comps : List Comp} {fbs : List Fb} {r : PathRouter}
   · refine ⟨fb, hfb, pfx, h1, h2, ?_⟩
     rw [leaf_dispatch_no_arm (by rw [harms]; intro a ha; cases ha), h3]
     simp [Leaf.allowed, harms]
+
+set_option maxRecDepth 100000 in
+/-- Non-vacuous: in `okOps`, `/apix` is only matched by `/api{*catch_all}`, the entry of the nested
+    blueprint's fallback 0; `/zzz` is matched by nothing: default fallback, `404`. -/
+example : ((compile okOps).toOption.map (fun t =>
+      (t.dispatch ⟨"GET", "/apix".toList, none⟩, t.dispatch ⟨"GET", "/zzz".toList, none⟩))) =
+      some (.fallback (some 0) [], .fallback none []) ∧ defaultFallback [] = (404, none) := by
+  constructor
+  · decide +kernel
+  · decide +kernel
 
 /-- With domain guards: no guard fits the `Host` (or there is no usable `Host`) → the top-level
     fallback, with no allowed methods. -/
